@@ -678,6 +678,16 @@ class Sha1Model:
             ctx = Ctx.cur
             name = ctx.fresh('sha1digest')
             d = ctx.bytes(name, 20)
+            # a harness may ask that digests from the k-th hash object on
+            # fall into ONE rendering class (positive, 40 hex digits), so
+            # that a second hash in the same path does not square the
+            # number of sign x digit-count forks
+            k = ctx.env.get('sha1_fix_from')
+            idx = ctx.env.get('sha1', []).index(self) \
+                if self in ctx.env.get('sha1', []) else 0
+            if k is not None and idx >= k and ctx.mode == 'sym':
+                b0 = d.items[0]
+                ctx.add(z3.And(z3.UGE(b0, 0x10), z3.ULE(b0, 0x7F)))
             self.digest_items = d
         return self.digest_items
 
